@@ -143,6 +143,14 @@ CHECKS["C15"] = dict(
     design_ref="DESIGN.md section 5, C15",
 )
 
+CHECKS["C07"] = dict(
+    engine=E1,
+    technique="reached states (quick: eight representative histories; thorough: explicit-state BFS over Assoc/Est/Del/Report/Push to depth 4) x exhaustive mutation sweep of 14 valid base datagrams (every octet x replacement values, every truncation/extension, every structure-aware TLV mutation at every nesting level, header fields, SEID classes; thorough: pairs), each mutant sent twice through the real UDP socket and followed by a heartbeat probe, with the model data plane and with the real gtp5g driver over the simulated kernel",
+    text="Bounded-exhaustive exploration of the stated finite mutation space in every explored state on the real server (receiver goroutine and socket included): no fatal exit or panic, the loop and the receiver keep running, a Heartbeat Request from another peer is answered after every mutant, and the session of the other peer is bit-identical unless the datagram names it. The literal quantifier 'all byte strings' is infinite; what is decided is this finite space.",
+    note=FULL + " A panic in any other goroutine kills the worker process and is reported with its stack.",
+    design_ref="DESIGN.md section 5, C07",
+)
+
 NOT_YET = "check not built yet (work in progress in this round; design in DESIGN.md section 5)"
 
 def main():
